@@ -439,9 +439,25 @@ def evalFlushInHandler (ins outs : List String) : Verdict :=
     .ok "flushinhandler"
   | _, _, _, _, _, _, _, _, _, _ => .bad "flushinhandler fields"
 
+/-- `kind=pointerfault` (C06): one refused write of the tail/head pointer key right after the range's headers were removed.
+    The pointers of the running store resolve to stored headers with everything between them retrievable, and a clean
+    Stop/Start reports the same Head and Tail. -/
+def evalPointerFault (outs : List String) : Verdict :=
+  match kv? outs "head1", kv? outs "tail1", kv? outs "between1", kv? outs "restart", kv? outs "head2", kv? outs "tail2", kv? outs "between2" with
+  | some h1, some t1, some b1, some rs, some h2, some t2, some b2 =>
+    let dangling := fun (x : String) => (x.splitOn "!").length > 1
+    if dangling h1 || dangling t1 || h1 == "none" || t1 == "none" then .prop "c06_pointers_resolve" s!"after the refused pointer write: Head={h1} Tail={t1}" else
+    if b1 != "ok" then .prop "c06_between_retrievable" s!"running store: {b1} (Tail={t1} Head={h1})" else
+    if rs != "ok" then .prop "c06_restart_ok" s!"restart={rs}" else
+    if dangling h2 || dangling t2 then .prop "c06_pointers_resolve" s!"after restart: Head={h2} Tail={t2}" else
+    if h2 != h1 || t2 != t1 then .prop "c06_clean_restart_same" s!"before Stop: Tail={t1} Head={h1}; after Start: Tail={t2} Head={h2}" else
+    if b2 != "ok" then .prop "c06_between_retrievable" s!"after restart: {b2}" else .ok "pointerfault"
+  | _, _, _, _, _, _, _ => .bad "pointerfault fields"
+
 /-- DeleteRange(1,to) on 1..n through the PARALLEL path with a refusing handler, then a retry with the handler
 healed (`kind=parfail`).  Pure predicates from the texts of C08 / C14 / C04 on the implementation's observation. -/
 def evalParFail (tag : String) (ins outs : List String) : Verdict :=
+  if kv? ins "kind" == some "pointerfault" then evalPointerFault outs else
   if kv? ins "kind" == some "stopsync" then evalStopSync ins outs else
   if kv? ins "kind" == some "readduringdelete" then evalReadDuringDelete ins outs else
   if kv? ins "kind" == some "queued" then evalQueued ins outs else
